@@ -1,10 +1,10 @@
 #!/bin/bash
-# usage: confirm_seed.sh <seed-dir> : independently confirm a seeded change in a scratch worktree of the pinned commit:
+# usage: confirm_seed.sh <seed-dir> [base-commit] : independently confirm a seeded change in a scratch worktree of the pinned commit:
 # builds, existing suite passes, demonstration fails with the change and passes without it.
 S=$1
 W=/var/tmp/confirm_$$
 export GOFLAGS=-mod=mod GOPROXY=off
-PIN=551c29a
+PIN=${2:-551c29a}
 git -C /repo worktree add -q --detach $W $PIN || exit 2
 cd $W
 DEMO_PATH=$(python3 -c "import json;print(json.load(open('$S/meta.json'))['demo_path'])")
@@ -14,7 +14,7 @@ res() { echo "$1" | tee -a $S/confirm.log; }
 : > $S/confirm.log
 # 1. demo passes without the change
 mkdir -p $(dirname $DEMO_PATH); cp $DEMO_FILE $DEMO_PATH
-DC=$(echo "$DEMO_CMD" | sed "s#cd /tmp/seed/[A-Z0-9]* *&& *##; s#export GOFLAGS=-mod=mod GOPROXY=off *&& *##")
+DC=$(echo "$DEMO_CMD" | sed "s#cd /tmp/seed2*/[A-Z0-9]* *&& *##; s#cp /tmp/seed2*/[A-Z0-9.a-z_/]* [a-z/]* *&& *##; s#export GOFLAGS=-mod=mod GOPROXY=off *&& *##")
 if (eval "$DC") > /tmp/confirm_out_$$ 2>&1; then res "demo_without_change: pass"; else res "demo_without_change: FAIL"; tail -5 /tmp/confirm_out_$$ >> $S/confirm.log; fi
 # 2. apply, build
 git apply $S/patch.diff && res "apply: ok" || res "apply: FAIL"
